@@ -42,7 +42,7 @@ func NewCPU(debug bool, memoryBytes int) *CPU {
 		executeBus:           &comp.SimpleBus[risc.InstructionRunnerPc]{},
 		executeUnit:          newExecuteUnit(bu, mmu),
 		writeBus:             &comp.SimpleBus[risc.ExecutionContext]{},
-		writeUnit:            &writeUnit{},
+		writeUnit:            &writeUnit{mmu: mmu},
 		branchUnit:           bu,
 		memoryManagementUnit: mmu,
 	}
@@ -115,6 +115,7 @@ func (m *CPU) flush(pc int32) {
 	m.decodeBus.Flush()
 	m.executeBus.Flush()
 	m.writeBus.Flush()
+	m.memoryManagementUnit.queuedStores = make(map[int32]int)
 	m.ctx.Flush()
 }
 
